@@ -235,7 +235,14 @@ func c14cliJudge(rep *vrtReport, blocks, diags []string, serialOut map[string]st
 		return fmt.Sprintf("stdout is not a concatenation of exactly the per-file blocks of the serial run, each contiguous and intact: got %q, blocks %q", out.String(), want), out.String()
 	}
 	for _, d := range diags {
-		if !strings.Contains(errOut.String(), d) {
+		// the wording is free; a bad file must be named, for stdin any diagnostic will do
+		if d == " -" {
+			if strings.TrimSpace(errOut.String()) == "" {
+				return "no diagnostic for stdin on stderr", out.String()
+			}
+			continue
+		}
+		if !strings.Contains(errOut.String(), filepath.Base(d)) {
 			return fmt.Sprintf("no diagnostic naming %q on stderr (stderr: %q)", d, errOut.String()), out.String()
 		}
 	}
